@@ -197,3 +197,19 @@ def dispatch_map(body, adt_suffix="message::Message", callee_prefix=None):
     other = body.blocks[t["o"]]
     wildcard = other["t"]["k"] != "unreachable"
     return out, {"switch": u, "wildcard": wildcard, "kinds": sorted(g["labels"].values())}
+
+
+def teardown_must_pass(sd, accessors):
+    """shutdown_connection: once the connection's state was taken out of self.conns (Some edge of conns.remove(id)), no path
+    reaches the exit without calling each collection accessor of the removed state (i.e. without entering its cleanup loop).
+    Returns {accessor: ok}."""
+    some = sd.edges_matching([r"^Some=discr\(self\.conns\.remove\(id\)\)$"])
+    out = {}
+    for a in accessors:
+        cs = [c.bb for c in sd.calls if c.name == a and (c.callee or "").endswith("ConnectionState::" + a)]
+        ok = len(some) == 1 and bool(cs)
+        if ok:
+            (_u, v) = list(some)[0]
+            ok = not (set(sd.exits()) & sd.reachable(v, without_nodes=set(cs)))
+        out[a] = ok
+    return out
